@@ -495,6 +495,30 @@ Theorem allocation_allowance_independent_of_the_compression_ratio : forall ob,
 Proof. exact served_kb_bound. Qed.
 Print Assumptions allocation_allowance_independent_of_the_compression_ratio.
 
+(* fourth session (fix 4: the limiter also stands in front of a body sent WITHOUT Content-Encoding): the bytes a request
+   makes the server read, and the oracle's allowance, are bounded by the operator's limit alone -- whatever the encoding,
+   the compression ratio and the size of the body on the wire *)
+Theorem request_size_bounded_by_the_limit_alone : forall ce body decoded limit,
+  (bytes_read_limited ce body decoded limit <= limit)%Z.
+Proof. exact bytes_read_limited_by_limit. Qed.
+Print Assumptions request_size_bounded_by_the_limit_alone.
+
+Theorem allocation_allowance_bounded_by_the_limit_alone : forall ob, (0 < ob_limit_kb ob)%Z -> (served_kb ob <= ob_limit_kb ob)%Z.
+Proof. exact served_kb_by_limit. Qed.
+Print Assumptions allocation_allowance_bounded_by_the_limit_alone.
+
+Example allowance_hypothesis_met :
+  let ob := {| ob_outcome := O4xx; ob_canary_ok := true; ob_alloc_kb := 900; ob_body_kb := 204800; ob_decoded_kb := 204800; ob_limit_kb := 1024 |} in
+  (0 < ob_limit_kb ob)%Z /\ served_kb ob = 1024%Z /\ served_kb_v3 ob = 204800%Z.
+Proof. vm_compute. repeat split. Qed.
+
+(* the defect, for the record: after 3b40c0c a body without Content-Encoding still reached the routes whole (io.ReadAll in
+   withUnsnappyRequest, the OTLP PreRequest, withBufferedBody): for every limit there is a body that makes the server read more *)
+Theorem plain_bodies_were_unbounded_before_the_fix : forall limit, (0 <= limit)%Z ->
+  exists body, (limit < bytes_read_limited_v3 "" body body limit)%Z.
+Proof. exact bytes_read_v3_plain_unbounded. Qed.
+Print Assumptions plain_bodies_were_unbounded_before_the_fix.
+
 (* the limiter in the source: every Content-Encoding WithOverallContextMiddleware accepts (other than none) replaces the
    body by readColser{helpers.LimitDecoded(reader)}; LimitDecoded starts at pbPool.limit (50 MiB until SetGlobalLimit halves
    http_settings.input_buffer_mb); Read is the modelled statement list; the error is a 400; the snappy BLOCK limit stays *)
